@@ -343,7 +343,11 @@ def check_value(ctx, ser, v, tr=None):
     case = _case(ser, tr) if not python_only else {"serializer": ser, "python_value": repr(v)}
     for name, got in (("positional", arg), ("keyword", kw)):
         if got != res:
-            if ser == "msgpack" and got[0] == "ok" and _has_ext(got[1]):
+            if ser == "msgpack" and res[0] == "ok" and _has_ext(res[1]) and not (got[0] == "ok" and _has_ext(got[1])):
+                ctx.fail("msgpack-result-exttype",
+                         "msgpack: the result arrives as msgpack.ExtType but the same value arrives correctly as a %s argument: "
+                         "arg=%s result=%s" % (name, repr(got)[:200], repr(res)[:200]), case)
+            elif ser == "msgpack" and got[0] == "ok" and _has_ext(got[1]):
                 ctx.fail("msgpack-arg-exttype",
                          "msgpack: %s argument arrives as msgpack.ExtType but the same value comes back correctly as a result: "
                          "arg=%s result=%s" % (name, repr(got)[:200], repr(res)[:200]), case)
